@@ -64,6 +64,7 @@ finally:
     sh("rm -f /verif/replays/*.json")
     for c in checks:  # evidence written against the patched tree is not evidence
         sh(f"git -C /verif checkout -- evidence/{c}.json")
+    sh("/verif/tools/regen.sh")  # Generated/*.lean were regenerated from the seeded tree
 meta = {
     "name": name, "property": prop, "needs_to_manifest": needs,
     "confirmed": {"existing_tests_pass_with_change": tests_ok, "demo_fails_with_change_passes_without": demo_ok},
